@@ -283,6 +283,25 @@ def shard(ctx):
                 if got != exp:
                     ctx.violation("odd:%s" % c, {"payload": payload, "context": c},
                                   "%r in %s: html5lib %r, standard %r" % (payload, c, got, exp))
+    # RCDATA: a reference must leave the tokenizer in RCDATA - markup-looking text after it stays text
+    for context in ("textarea", "title"):
+        for ref in ("&amp;", "&amp", "&#65;", "&#x41", "&bogus;", "&lt;", "&", "&#;", "&notit;", "&not"):
+            for tail in ("<b>x</b>", "<!--c-->y", "<i", "</b>z", "<svg>", "<textarea>", "<title>", "<!DOCTYPE a>"):
+                kb += 1
+                if not ctx.mine(kb):
+                    continue
+                payload = "x" + ref + tail
+                exp = charref.decode(payload, False)
+                try:
+                    got = run_spelling(ctx, payload, context)
+                except Exception as e:
+                    ctx.violation("parse-raised", {"payload": payload, "context": context}, repr(e))
+                    continue
+                ctx.case([payload, context])
+                ctx.count("rcdata_reference_then_markup")
+                if got != exp:
+                    ctx.violation("rcdata-after-reference:%s" % context, {"payload": payload, "context": context},
+                                  "%r in <%s>: text %r, expected %r" % (payload, context, got, exp))
     reverse_direction(ctx, "rev", 3000 if ctx.tier == "quick" else 20000)
 
 
